@@ -289,11 +289,17 @@ pub fn resolve(m: &Model, cfg: &GenCfg, s: &OpSpec, excluded: &mut u64) -> Op {
         36 => Op::Entries(a),
         37 | 38 => Op::Chmod(a, mode),
         39 | 40 => {
-            let sel = match (s.n / 7) % 4 {
+            let sel = match (s.n / 7) % 5 {
                 0 => ChmodSel::All(mode),
                 1 => ChmodSel::Dirs(mode),
                 2 => ChmodSel::Files(mode),
-                _ => ChmodSel::Sym(SYMS[(s.n as usize / 64) % SYMS.len()].to_string()),
+                3 => ChmodSel::Sym(SYMS[(s.n as usize / 64) % SYMS.len()].to_string()),
+                _ => ChmodSel::Mix {
+                    dirs: if (s.n >> 24) & 1 == 0 { mode } else { 0 },
+                    files: if (s.n >> 25) & 1 == 0 { MODES[(s.n as usize / 11) % MODES.len()] } else { 0 },
+                    sym: SYMS[(s.n as usize / 64) % SYMS.len()].to_string(),
+                    sym_first: (s.n >> 26) & 1 == 0,
+                },
             };
             Op::ChmodB(a, ChmodOpt { sel, recursive: (s.n >> 20) & 1 == 0, follow: (s.n >> 21) & 3 == 0 })
         },
